@@ -355,6 +355,69 @@ func init() {
 		return f
 	})
 
+	// iso-restart: the iso alphabet; at the end of every history the database is closed, a new process
+	// opens it, and everything is read again (C05: what was committed, by whatever interleaving of
+	// transactions and autocommit writes, is what the next process sees; twice, since the first reopening
+	// may itself rewrite state).
+	seq.Register("iso-restart", func(p string) *seq.Family {
+		base := seq.Lookup("iso", p+",gc=0")
+		f := &seq.Family{Opt: base.Opt, Next: base.Next}
+		f.Opt.Epilogue = func(r *seq.Runner) *seq.Mismatch {
+			for i := 0; i < 2; i++ {
+				op := seq.Op{Kind: seq.Restart, Actor: model.Auto}
+				if mm := r.Apply(op); mm != nil {
+					return mm
+				}
+				if mm := r.Observe(op); mm != nil {
+					return mm
+				}
+			}
+			return nil
+		}
+		return f
+	})
+
+	// heldwriter: GC-free histories during which the autocommit caller keeps a created file open: Create
+	// and a first Write at one position, the last Write and Close at the same or a later one, optionally
+	// a collection pass right after the first or right before the second; the write takes effect at Close
+	// (C01: writes in progress; whatever happens in between — other writes of the key, transactions
+	// beginning and ending, a collection pass — the closed file is the key's value, whole).
+	seq.Register("heldwriter", func(p string) *seq.Family {
+		m := params(p)
+		base := seq.Lookup("iso", p+",gc=0")
+		nk := atoi(m["keys"], 1)
+		f := &seq.Family{Opt: base.Opt, Next: base.Next}
+		f.Opt.ReaderObs = true
+		f.Variants = func(hist []seq.Op) [][]seq.Op {
+			var out [][]seq.Op
+			n := len(hist)
+			for _, k := range keyNames[:nk] {
+				for pos := 0; pos <= n; pos++ {
+					for q := pos; q <= n; q++ {
+						for gc := 0; gc < 3; gc++ {
+							h := make([]seq.Op, 0, n+3)
+							h = append(h, hist[:pos]...)
+							h = append(h, seq.Op{Kind: seq.CreateBegin, Actor: model.Auto, Key: k})
+							ref := len(h)
+							if gc == 1 {
+								h = append(h, seq.Op{Kind: seq.GC})
+							}
+							h = append(h, hist[pos:q]...)
+							if gc == 2 {
+								h = append(h, seq.Op{Kind: seq.GC})
+							}
+							h = append(h, seq.Op{Kind: seq.CreateEnd, Actor: model.Auto, Key: k, Ref: ref})
+							h = append(h, hist[q:]...)
+							out = append(out, h)
+						}
+					}
+				}
+			}
+			return out
+		}
+		return f
+	})
+
 	// gcdiff: GC-free histories with the collector inserted at every subset (size <= maxgc) of positions;
 	// all actors read after every step (C09).
 	seq.Register("gcdiff", func(p string) *seq.Family {
